@@ -30,6 +30,7 @@ from .types import (
     NamedType,
     NonNullType,
     ObjectType,
+    ScalarType,
     UnionType,
     unwrap_type,
 )
@@ -38,6 +39,24 @@ from .validation import validate_schema
 
 _SPECIFIED_DIRECTIVE_NAMES = [t.name for t in SPECIFIED_DIRECTIVES]
 _PROTECTED_TYPES = SPECIFIED_SCALAR_TYPES + INTROPSPECTION_TYPES
+_TYPE_KINDS = (
+    ScalarType,
+    ObjectType,
+    InterfaceType,
+    UnionType,
+    EnumType,
+    InputObjectType,
+)
+
+
+def _kind_of(type_: NamedType) -> type:
+    # The GraphQL kind of a type: instances of a subclass (custom scalars,
+    # application specific ObjectType subclasses...) are of the same kind as
+    # the plain type a schema visitor rebuilds them into.
+    for kind in _TYPE_KINDS:
+        if isinstance(type_, kind):
+            return kind
+    return type(type_)
 
 
 Resolver = Callable[..., Any]
@@ -173,7 +192,9 @@ class Schema(ResolverMap):
                 raise SchemaError(
                     "Cannot replace specified type %s" % checked_type
                 )
-            if new_type is not None and type(checked_type) != type(new_type):
+            if new_type is not None and _kind_of(checked_type) is not _kind_of(
+                new_type
+            ):
                 raise SchemaError(
                     "Cannot replace type %r with a different kind of type %r."
                     % (checked_type, new_type)
@@ -202,7 +223,7 @@ class Schema(ResolverMap):
                 if new_type is None:
                     del self.types[type_name]
                 else:
-                    if type(original_type) != type(new_type):
+                    if _kind_of(original_type) is not _kind_of(new_type):
                         raise SchemaError(
                             "Cannot replace type %r with a different kind of type %r."
                             % (original_type, new_type)
